@@ -16,7 +16,7 @@ EVIDENCE = os.path.join(VERIF, "evidence")
 REPLAYS = os.path.join(VERIF, "replays")
 KNOWN = os.path.join(VERIF, "known_findings.json")
 
-sys.path.insert(0, "/repo")
+sys.path.insert(0, os.environ.get("PMV_REPO", "/repo"))
 
 
 @dataclass
